@@ -13,6 +13,10 @@ Lemma low_part_fits_two_bytes : rec_partition_bits <= 16.
 Proof. vm_compute. discriminate. Qed.
 Lemma reapply_overwrites : rec_reapply_overwrites = true.
 Proof. reflexivity. Qed.
+(* event-types.go applyRecs rebuilds every update over the stored row (repair of F-C03-1, e4efa7ee7);
+   if the guard `if rec.originRec.empty()` comes back this fails and re-opens every theorem below *)
+Lemma apply_reloads_origin : rec_apply_reloads_origin = true.
+Proof. reflexivity. Qed.
 
 (* Distinct (workspace, id) pairs never share a storage row. *)
 Theorem record_key_injective : forall ws id ws' id',
@@ -25,37 +29,40 @@ Proof. exact (rec_key_inj low_mask_is_partition_mask low_part_fits_two_bytes). Q
    record returns exactly the per-field fold of the log: it exists iff some event created it; type,
    parent and container are those of the create; the activation flag is that of the newest event
    naming the record; every field has the value given by the newest event naming that field,
-   emptied fields (and empty strings) are absent. *)
+   emptied fields (and empty strings) are absent.
+   "valid" = accepted by BuildRawEvent, ids < 2^64, created ids new in their workspace (C04), and
+   every update can be built over the row it meets in the store (so that Apply succeeds); the
+   content of the record object handed to ICUD.Update is arbitrary (stale, foreign, empty). *)
 Theorem apply_fold_spec : forall h ws id,
   valid_history [] h = true -> ws < bound64 -> id < bound64 ->
   lookup (run [] h) ws id = spec_rec (touches (rev h) ws id) id.
-Proof. exact (apply_fold_spec_proved low_mask_is_partition_mask low_part_fits_two_bytes). Qed.
+Proof. exact (apply_fold_spec_proved low_mask_is_partition_mask low_part_fits_two_bytes apply_reloads_origin). Qed.
 
 (* Records never created do not exist (in particular: the same id in another workspace). *)
 Theorem untouched_absent : forall h ws id,
   valid_history [] h = true -> ws < bound64 -> id < bound64 ->
   (forall e c, In e h -> e_ws e = ws -> In c (e_creates e) -> c_id c <> id) ->
   lookup (run [] h) ws id = None.
-Proof. exact (untouched_absent_proved low_mask_is_partition_mask low_part_fits_two_bytes). Qed.
+Proof. exact (untouched_absent_proved low_mask_is_partition_mask low_part_fits_two_bytes apply_reloads_origin). Qed.
 
 (* Re-applying an event that was just applied, with the origins reloaded from the store as
    recovery does, succeeds and leaves the whole store identical, from every state. *)
 Theorem reapply_idem : forall st e,
   valid_event st e = true -> reapply (fst (apply st e)) e = (fst (apply st e), 0).
-Proof. exact (reapply_idem_proved low_mask_is_partition_mask low_part_fits_two_bytes reapply_overwrites). Qed.
+Proof. exact (reapply_idem_proved low_mask_is_partition_mask low_part_fits_two_bytes apply_reloads_origin reapply_overwrites). Qed.
 
 (* Recovery of an event that was logged but whose records were not written yet does exactly what
    Apply would have done. *)
 Theorem reapply_completes_apply : forall st e,
   valid_event st e = true -> reapply st e = apply st e.
-Proof. exact (reapply_completes_apply_proved low_mask_is_partition_mask low_part_fits_two_bytes reapply_overwrites). Qed.
+Proof. exact (reapply_completes_apply_proved low_mask_is_partition_mask low_part_fits_two_bytes apply_reloads_origin reapply_overwrites). Qed.
 
 (* The fold specification holds for every history in which any prefix is followed by any number
    of re-applies of its last event. *)
 Theorem fold_spec_with_reapply : forall ops ws id,
   valid_ops [] None ops = true -> ws < bound64 -> id < bound64 ->
   lookup (run_ops [] None ops) ws id = spec_rec (touches (rev (applied ops)) ws id) id.
-Proof. exact (fold_spec_with_reapply_proved low_mask_is_partition_mask low_part_fits_two_bytes reapply_overwrites). Qed.
+Proof. exact (fold_spec_with_reapply_proved low_mask_is_partition_mask low_part_fits_two_bytes apply_reloads_origin reapply_overwrites). Qed.
 
 (* Any Apply (valid or not, complete or stopped half-way) leaves every record the event does not
    name untouched, in every workspace. *)
@@ -77,34 +84,31 @@ Proof. exact (update_keeps_unnamed_proved low_mask_is_partition_mask low_part_fi
    observed trace equals the model's ([agrees]) on a valid history, the oracle's verdict is the theorem. *)
 Theorem satisfies_model_trace : forall ops qs,
   valid_ops [] None ops = true -> qs_bounded qs -> satisfies (model_trace [] None ops qs) = true.
-Proof. exact (satisfies_model_trace_proved low_mask_is_partition_mask low_part_fits_two_bytes reapply_overwrites). Qed.
+Proof. exact (satisfies_model_trace_proved low_mask_is_partition_mask low_part_fits_two_bytes apply_reloads_origin reapply_overwrites). Qed.
 
-(* FINDING F-C03-1 (open).  The full statement, without the hypothesis that the record handed to
-   ICUD.Update is the stored one:
-     forall h ws id, accepted_history [] h = true -> ... ->
-       lookup (run [] h) ws id = spec_rec (touches (rev h) ws id) id
-   is refuted by the faithful model, as it is by the code: the live Apply writes
-   origin + changes from the record object it was given (never re-read), the log holds the changes
-   only; an update built from an older snapshot, or from the record with the same id in another
-   workspace, is accepted by BuildRawEvent and silently reverts the fields changed since
-   (corpus/C03/stale_origin_reverts.json).  istructs.ICUD.Update documents that only the record's
-   ID and QName matter.  [apply_fold_spec] is the partial theorem: its extra hypothesis
-   [fresh_origins] (inside [valid_event]) is exactly what excludes the witness; the oracle
-   [satisfies] does not make this exception.  Proposed repair: findings/C03/F-C03-1.diff
-   (Apply always rebuilds over the stored record, as the re-apply path does). *)
+(* F-C03-1 (repaired in /repo e4efa7ee7).  Before the repair the live Apply built an update over
+   the record OBJECT handed to ICUD.Update (never re-read) while the log holds the changes only: an
+   older snapshot, or the record with the same id of another workspace, silently reverted the fields
+   changed since (corpus/C03/stale_origin_reverts.json).  The old shape is kept in the model
+   ([eff_origin_old], [apply_old], selected when the translator no longer finds the unconditional
+   reload) and refutes the statement: [stale_witness] is a valid history - nothing is required of
+   the content of the object handed to Update - on which the old Apply leaves a store that is not
+   the fold, and the present one does not. *)
 Definition stale_witness : list event :=
   let d0 := mkRec 204798 1 0 0 true [Some (FNum 1); None] in
   [ mkEvent 1 [mkCreate false 204798 1 0 0 true [SetTo (FNum 1); Keep]] [];
     mkEvent 1 [] [mkUpdate 204798 d0 0 0 true [Keep; SetTo (FStr [120])]];
     mkEvent 1 [] [mkUpdate 204798 d0 0 0 true [SetTo (FNum 7); Keep]] ].
 
-Theorem apply_fold_spec_without_fresh_origins_refuted :
-  exists h ws id, accepted_history [] h = true /\ ws < bound64 /\ id < bound64 /\
-    lookup (run [] h) ws id <> spec_rec (touches (rev h) ws id) id.
+Theorem apply_fold_spec_with_old_apply_refuted :
+  exists h ws id, valid_history [] h = true /\ ws < bound64 /\ id < bound64 /\
+    lookup (run_old [] h) ws id <> spec_rec (touches (rev h) ws id) id.
 Proof. exists stale_witness, 1, 204798. vm_compute. repeat split; try reflexivity. discriminate. Qed.
 
-Example stale_witness_excluded : valid_history [] stale_witness = false.
-Proof. vm_compute. reflexivity. Qed.
+Example stale_witness_now_folds :
+  valid_history [] stale_witness = true /\
+  lookup (run [] stale_witness) 1 204798 = Some (mkRec 204798 1 0 0 true [Some (FNum 7); Some (FStr [120])]).
+Proof. vm_compute. split; reflexivity. Qed.
 
 (* non-vacuity: a concrete history over two workspaces (equal ids in both, ids on both sides of a
    4096 boundary), nested records, a singleton, field set / emptied / zero, deactivate and
@@ -173,4 +177,4 @@ Print Assumptions fold_spec_with_reapply.
 Print Assumptions apply_frame.
 Print Assumptions update_keeps_unnamed.
 Print Assumptions satisfies_model_trace.
-Print Assumptions apply_fold_spec_without_fresh_origins_refuted.
+Print Assumptions apply_fold_spec_with_old_apply_refuted.
